@@ -202,7 +202,39 @@ def _write_changed_and_unknown(p, tr):
     tr.write_entity(ent, [h, 'nope'])
 
 # calls that are accepted by the API; whatever happens, the transaction must be all-or-nothing
+def _loc_handle(p):
+    hs = sorted(s.Handle for s in p.mdib.context_states.descriptor_handle.get(A.LOC, []))
+    if not hs:
+        raise A.Disabled('no location state')
+    return hs[0]
+
+
+def _foreign_handle_via_entity(p, tr, descriptor_tx):
+    """A new patient context state that carries the handle of an existing location context state (entity interface)."""
+    ent = p.mdib.entities.by_handle(A.PAT)
+    st = ent.new_state(_loc_handle(p))
+    st.CoreData.Givenname = 'Clash'
+    if descriptor_tx:
+        tr.write_entity(ent)
+    else:
+        tr.write_entity(ent, [st.Handle])
+
+
+def _descriptor_copy_with_changed_handle(p, tr):
+    d = tr.get_descriptor(A.NUM1)
+    d.SafetyClassification = A._pm().SafetyClassification.MED_A
+    d2 = tr.get_descriptor(A.NUM2)
+    d2.Handle = 'renamed.by.application'
+
+
 ALL_OR_NOTHING = [
+    ('descriptor:write_entity(new-context-state-with-handle-of-another-descriptor)', 'descriptor_transaction',
+     lambda p, tr: _foreign_handle_via_entity(p, tr, True)),
+    ('context:write_entity(new-context-state-with-handle-of-another-descriptor)', 'context_state_transaction',
+     lambda p, tr: _foreign_handle_via_entity(p, tr, False)),
+    ('context:mk_context_state(handle-of-another-descriptor)', 'context_state_transaction',
+     lambda p, tr: tr.mk_context_state(A.PAT, _loc_handle(p))),
+    ('descriptor:get_descriptor-then-change-handle-of-the-copy', 'descriptor_transaction', _descriptor_copy_with_changed_handle),
     ('descriptor:add_state(context-state-handle-that-exists-in-mdib)', 'descriptor_transaction',
      lambda p, tr: (tr.get_descriptor(A.PAT), tr.add_state(_dup_context_state(p)))),
     ('descriptor:add_state(state-that-exists-in-mdib)', 'descriptor_transaction',
